@@ -101,6 +101,26 @@ end`},
   local ok, e = pcall(function() $F() error({code = $I}) end)
   emit("throw", $I, ok, type(e))
 end`},
+	// an error unwinds a pending to-be-closed variable through the protected
+	// call: the handler runs after the body of the pcall has already failed
+	{"closeerr", `function()
+  local ok, e = pcall(function()
+    local x <close> = setmetatable({}, {__close = function() for j = 1, 5 do tick() end emit("ceh", $I) end})
+    $F()
+    error({code = $I})
+  end)
+  emit("closeerr", $I, ok, type(e))
+end`},
+	// the same with a finalizer of an inner context that ends with an error
+	{"ctxgcerr", `function()
+  local ctx = runtime.callcontext({kill = {cpu = 100000}}, function()
+    setmetatable({}, {__gc = function() for j = 1, 5 do tick() end emit("cgh", $I) end})
+    $F()
+    error({code = $I})
+  end)
+  emit("ctxgcerr", $I, ctx.status)
+  tick()
+end`},
 }
 
 // A gran is the charge granularity of the workload: what one loop iteration
